@@ -3,7 +3,8 @@ From Coq Require Import List Bool ZArith Arith Lia.
 From VF Require Import Base.RingOps Base.Mat Base.Tensor Base.K8 Gates.GateSpecs
   Cliff.Tableau Cliff.TableauSem Cliff.TableauCircuit Generated.TableauRules
   Cliff.TableauProofs Cliff.TableauConjProofs Cliff.TableauTrackProofs Cliff.TableauCircuitProofs
-  Cliff.TableauThen Cliff.TableauThenProofs Cliff.CliffGroup Cliff.CliffGroupProofs.
+  Cliff.TableauThen Cliff.TableauThenProofs Cliff.CliffGroup Cliff.CliffGroupProofs
+  Cliff.CHForm Cliff.CHFormHarness Cliff.CHFormProofs.
 Import ListNotations.
 
 (* every regenerated rule table of CliffordTableau (apply_x/y/z/h/cz/cx, _swap, g, _rowsum) is the model's rule *)
@@ -119,6 +120,21 @@ Print Assumptions C13_tableau_then_ok_partial.
 Theorem C13_tableau_inverse_ok_partial : inverse_check 1 = true /\ inverse_check 2 = true.
 Proof. exact tableau_inverse_ok_partial. Qed.
 Print Assumptions C13_tableau_inverse_ok_partial.
+
+
+(* D6/D7 (partial): the CH-form tables are the model's functions, and the model's state vector equals the reference
+   state-vector semantics exactly (phase included) for all short circuits over generator sets covering the vocabulary *)
+Theorem C13_chform_tables_ok :
+  (length (tbl_hdec K8Ops) = 32 /\
+   forallb (fun row => let '((v, y, z, d), out) := row in hdec_eqb (H_decompose K8Ops v y z d) out) (tbl_hdec K8Ops) = true) /\
+  forallb (fun row => k8_eqb (snd row) (kpow K8Ops (zeta K8Ops) (Z.to_nat (fst row mod 8)))) (tbl_phase K8Ops) = true.
+Proof. exact (conj tbl_hdec_ok tbl_phase_ok). Qed.
+Print Assumptions C13_chform_tables_ok.
+
+Theorem C13_chform_small_ok_partial :
+  small_ok 1 gens1 4 = true /\ small_ok 2 gens2 3 = true /\ small_ok 3 gens3 2 = true /\ long_ok = true.
+Proof. exact chform_small_ok_partial. Qed.
+Print Assumptions C13_chform_small_ok_partial.
 
 (* non-vacuity: the laws are inhabited (exact field Q(zeta_8)) and a Bell-pair circuit with an S gate meets every hypothesis *)
 Example C13_hypotheses_satisfiable :
